@@ -168,17 +168,20 @@ def run(chk, replay=None):
         return
 
     okc = 0
+    vary = random.Random(chk.seed * 7919 + 11)     # pseudo-random choices (TLC emits cases in a regular order)
     for ci, case in enumerate(cases):
         reps = [(ci, ci, False), (ci + 3, ci + 1, True)] if quick else [(ci + t, ci + t, t % 2 == 1) for t in range(4)]
         for (ti, mi, swap) in reps:
-            bad = check_file(case, ti, mi, swap, then_load=(mi + 1 if (ci + ti) % 3 == 0 else None))
+            ti, mi = ti + vary.randrange(12), mi + vary.randrange(4)
+            then_ = mi + 1 if vary.random() < 0.35 else None
+            bad = check_file(case, ti, mi, swap, then_load=then_)
             ncell = len({tuple(r_['cell']) for r_ in case['file']})
             if ncell < case['nx'] * case['ny'] or any(r_['flag'] == 0 for r_ in case['file']) or case['nm'] > 1:
                 chk.nontrivial('%d|%d|%d|%s' % (ci, ti % len(TABLE), mi % len(MAGS), swap))
             if bad:
                 shape = 'single-row-or-column' if min(case['nx'], case['ny']) == 1 else 'general'
                 chk.violation('file:%s:%s:%s' % (bad['why'], 'swap_latlon' if swap else 'lonlat', shape),
-                              {'case': case, 'ti': ti, 'mi': mi, 'swap': swap, 'then_load': (mi + 1 if (ci + ti) % 3 == 0 else None), 'mismatch': bad})
+                              {'case': case, 'ti': ti, 'mi': mi, 'swap': swap, 'then_load': then_, 'mismatch': bad})
             else:
                 okc += 1
         if ci == 40:
